@@ -113,19 +113,18 @@ func init() {
 		// an application may register its own body type BEFORE the library has looked anything up: do that first, in every
 		// table, and require (below) that every pinned key still resolves and that the custom key resolves to what was registered
 		custom := map[int]*Val{}
-		if len(tableRegFns) == len(schema.Tables) {
-			for _, tb := range schema.Tables {
-				if tableRegFns[tb.ID] == nil || len(tb.Entries) == 0 {
-					continue
-				}
-				ty := tb.Entries[0].Ty
-				if tb.KeyKind == "str" {
-					tableRegFns[tb.ID]("ZZ9", func() codec.BinaryCodec { return typeCtors[ty]().(codec.BinaryCodec) })
-					custom[tb.ID] = &Val{K: 's', S: []byte("ZZ9")}
-				} else {
-					tableRegFns[tb.ID](uint64(0x7FF0), func() codec.BinaryCodec { return typeCtors[ty]().(codec.BinaryCodec) })
-					custom[tb.ID] = &Val{K: 'n', N: 0x7FF0}
-				}
+		for _, tb := range schema.Tables {
+			reg := tableRegFns[tb.Pkg+"."+tb.Reg]
+			if reg == nil || len(tb.Entries) == 0 {
+				continue
+			}
+			ty := tb.Entries[0].Ty
+			if tb.KeyKind == "str" {
+				reg("ZZ9", func() codec.BinaryCodec { return typeCtors[ty]().(codec.BinaryCodec) })
+				custom[tb.ID] = &Val{K: 's', S: []byte("ZZ9")}
+			} else {
+				reg(uint64(0x7FF0), func() codec.BinaryCodec { return typeCtors[ty]().(codec.BinaryCodec) })
+				custom[tb.ID] = &Val{K: 'n', N: 0x7FF0}
 			}
 		}
 		for _, t := range schema.Types {
@@ -789,4 +788,70 @@ func init() {
 		res["recombined_keys"] = n
 		return res
 	}
+}
+
+// C12 (first thing in the process, before any look-up has been made): registering a factory again for a key that is
+// already registered (same type) changes nothing - afterwards every pinned key still selects its pinned type. A table that
+// is filled lazily, or replaced by the first registration, loses its built-in entries exactly here.
+func init() {
+	prev := suites["C12"]
+	suites["C12"] = func(o *Out, g *Gen, thorough bool) map[string]any {
+		for _, tb := range schema.Tables {
+			reg := tableRegFns[tb.Pkg+"."+tb.Reg]
+			if reg == nil || len(tb.Entries) == 0 {
+				continue
+			}
+			fn := lookupFns[tb.Pkg+"."+tb.Lookup]
+			if fn == nil {
+				continue
+			}
+			e0 := tb.Entries[len(tb.Entries)-1]
+			ty := e0.Ty
+			var key any
+			kv := keyVal(tb, e0)
+			if kv.K == 'n' {
+				key = kv.N
+			} else {
+				key = string(kv.S)
+			}
+			c, msg := guard(func() error {
+				reg(key, func() codec.BinaryCodec { return typeCtors[ty]().(codec.BinaryCodec) })
+				return nil
+			})
+			if c != "ok" {
+				o.violate(Violation{Property: "C12", Kind: "direct", What: "registering a factory panicked: " + msg, Case: fmt.Sprintf("register %s.%s key %s", tb.Pkg, tb.Lookup, e0.Key), Key: "reregister-panic:" + tb.Lookup})
+				continue
+			}
+			for _, e := range tb.Entries {
+				kv := keyVal(tb, e)
+				var k any = kv.N
+				desc := fmt.Sprintf("lookup %d n %d", tb.ID, kv.N)
+				if kv.K == 's' {
+					k = string(kv.S)
+					desc = fmt.Sprintf("lookup %d s %s", tb.ID, hexOf(kv.S))
+				}
+				var m codec.BinaryCodec
+				c, _ := guard(func() error { var err error; m, err = fn(k); return err })
+				want := fmt.Sprintf("%T", typeCtors[lastEntryTy(tb, e)]())
+				if c != "ok" || m == nil || fmt.Sprintf("%T", m) != want {
+					o.violate(Violation{Property: "C12", Kind: "direct", What: fmt.Sprintf("after registering the factory of key %s again (first call into the table in this process), %s.%s(%v) no longer selects %s (%s)", e0.Key, tb.Pkg, tb.Lookup, k, want, c),
+						Case: fmt.Sprintf("register %s.%s key %s ; %s", tb.Pkg, tb.Lookup, e0.Key, desc), Expected: want, Observed: fmt.Sprintf("%s %T", c, m), Key: "reregister:" + tb.Pkg + "." + tb.Lookup})
+					break
+				}
+			}
+			o.stat("reregistered-tables")
+		}
+		return prev(o, g, thorough)
+	}
+}
+
+// the type the LAST registration of e's key selects (later registrations win)
+func lastEntryTy(tb *Table, e Entry) int {
+	ty := e.Ty
+	for _, x := range tb.Entries {
+		if x.Key == e.Key {
+			ty = x.Ty
+		}
+	}
+	return ty
 }
